@@ -25,7 +25,11 @@ func TestVsimEntry(t *testing.T) {
 	}
 	p := sim.Lookup("C11")
 	p.Setup = vsimC11Setup
-	p.Run = vsimC11Run
+	p.Run = func(r *sim.Run) { vsimSegRun(r, false) }
+	// C08b: lazy decode forced, no faults, plus the lazy-vs-in-memory differential over the written files
+	q := sim.Lookup("C08b")
+	q.Setup = vsimC11Setup
+	q.Run = func(r *sim.Run) { vsimSegRun(r, true) }
 	os.Exit(sim.ToolEntry())
 }
 
@@ -106,7 +110,7 @@ func vsimReadOutputs(dir, prefix string) (map[string][]byte, error) {
 	return out, nil
 }
 
-func vsimC11Run(r *sim.Run) {
+func vsimSegRun(r *sim.Run, c08 bool) {
 	t := r.T
 	var img []byte
 	name := ""
@@ -150,6 +154,9 @@ func vsimC11Run(r *sim.Run) {
 	lazyDecode := mode == "lazy-write" || t.Bool()
 	cfg := sim.DrawDelivery(t)
 	faulty := lazyDecode && t.Chance(200)
+	if c08 {
+		lazyDecode, faulty = true, false
+	}
 	if faulty {
 		switch t.Draw(3) {
 		case 0:
@@ -183,7 +190,7 @@ func vsimC11Run(r *sim.Run) {
 	prefix := filepath.Join(dir, "out")
 	// the steps of run(), with the simulated disk in place of the os file
 	panicked := false
-	func() {
+	segment := func(f *mp4.File, rs *sim.Handle, prefix, mode string) {
 		defer func() {
 			if rec := recover(); rec != nil {
 				if _, ok := rec.(sim.HarnessAbort); ok {
@@ -202,10 +209,6 @@ func vsimC11Run(r *sim.Run) {
 		if err = seg.SetTargetSegmentation(ts, starts); err != nil {
 			return
 		}
-		var rs *sim.Handle
-		if lazyDecode {
-			rs = h
-		}
 		switch mode {
 		case "multi":
 			err = makeMultiTrackSegments(seg, f, rs, prefix)
@@ -218,7 +221,12 @@ func vsimC11Run(r *sim.Run) {
 				err = makeSingleTrackSegments(seg, f, rs, prefix)
 			}
 		}
-	}()
+	}
+	var rs *sim.Handle
+	if lazyDecode {
+		rs = h
+	}
+	segment(f, rs, prefix, mode)
 	r.Logf("segmenter -> err=%v panicked=%v", err, panicked)
 	if err != nil {
 		r.Probe("segmenter-failed(no claim)")
@@ -231,6 +239,45 @@ func vsimC11Run(r *sim.Run) {
 		panic(sim.HarnessAbort{Msg: rerr.Error()})
 	}
 	vsimCheckSegments(r, mode, img, din, refIdx, outs)
+	if !c08 {
+		return
+	}
+	// C08: the same segmentation of the fully decoded file must write the same files
+	var fe *mp4.File
+	r.Guard("DecodeFile(in memory)", func() { fe, err = mp4.DecodeFile(bytes.NewReader(img)) })
+	if err != nil {
+		r.Violate("c08b-decode", "in-memory decode failed where lazy decode succeeded: %v", err)
+		return
+	}
+	memMode := mode
+	if mode == "lazy-write" {
+		memMode = "single" // the in-memory counterpart of lazily copied media data
+	}
+	segment(fe, nil, filepath.Join(dir, "mem"), memMode)
+	if err != nil {
+		r.Violate("c08b-segments-differ", "segmenting the fully decoded file failed (%v) where the lazily decoded one succeeded", err)
+		return
+	}
+	mems, rerr := vsimReadOutputs(dir, "mem")
+	if rerr != nil {
+		panic(sim.HarnessAbort{Msg: rerr.Error()})
+	}
+	if len(mems) != len(outs) {
+		r.Violate("c08b-segments-differ", "lazy source: %d output files, in-memory source: %d", len(outs), len(mems))
+		return
+	}
+	names := make([]string, 0, len(outs))
+	for n := range outs {
+		names = append(names, n)
+	}
+	sort.Strings(names)
+	for _, n := range names {
+		if !bytes.Equal(outs[n], mems["mem"+strings.TrimPrefix(n, "out")]) {
+			r.Violate("c08b-segments-differ", "output file %s differs between the lazily and the fully decoded source", n)
+			return
+		}
+	}
+	r.Probe("segmenter-lazy-vs-memory-compared")
 }
 
 func btoiV(b bool) int {
@@ -334,6 +381,9 @@ func vsimCheckSegments(r *sim.Run, mode string, img []byte, din *ref.Demux, refI
 					r.Violate("c11-dts", "%s track %d sample %d: decode time %d, input %d", who, it.ID, i+1, b.Dts, a.Dts)
 				case a.Sync != b.Sync:
 					r.Violate("c11-sync", "%s track %d sample %d: sync %v, input %v", who, it.ID, i+1, b.Sync, a.Sync)
+				case a.Sdtp >= 0 && int(b.Flags>>20&0xff) != a.Sdtp:
+					// sdtp byte = is_leading(2) depends_on(2) is_depended_on(2) has_redundancy(2) = bits 27..20 of sample_flags
+					r.Violate("c11-flags", "%s track %d sample %d: dependency flags %02x in the segments, sdtp entry of the input %02x", who, it.ID, i+1, b.Flags>>20&0xff, a.Sdtp)
 				}
 			}
 		}
